@@ -4,6 +4,7 @@ import (
 	"context"
 	"errors"
 	"sync"
+	"sync/atomic"
 
 	"github.com/buchgr/bazel-remote/v2/cache"
 
@@ -49,7 +50,7 @@ func (c *diskCache) findMissingCasBlobsInternal(ctx context.Context, blobs []*pb
 	const batchSize = 20
 
 	var cancelContextForFailFast context.CancelFunc = nil
-	cancelledDueToFailFast := false
+	var cancelledDueToFailFast atomic.Bool
 
 	if failFast && c.proxy != nil {
 		var cancel context.CancelFunc
@@ -58,7 +59,7 @@ func (c *diskCache) findMissingCasBlobsInternal(ctx context.Context, blobs []*pb
 
 		cancelContextForFailFast = func() {
 			// Indicate that we were canceled so that we can fail fast.
-			cancelledDueToFailFast = true
+			cancelledDueToFailFast.Store(true)
 			cancel()
 		}
 	}
@@ -71,7 +72,7 @@ func (c *diskCache) findMissingCasBlobsInternal(ctx context.Context, blobs []*pb
 	for len(remaining) > 0 {
 		select {
 		case <-ctx.Done():
-			if cancelledDueToFailFast {
+			if cancelledDueToFailFast.Load() {
 				return errMissingBlob
 			}
 			return errRequestCancelled
@@ -114,7 +115,7 @@ func (c *diskCache) findMissingCasBlobsInternal(ctx context.Context, blobs []*pb
 				// so check to see if the context has cancelled.
 				select {
 				case <-ctx.Done():
-					if cancelledDueToFailFast {
+					if cancelledDueToFailFast.Load() {
 						return errMissingBlob
 					}
 					return errRequestCancelled
@@ -146,11 +147,16 @@ func (c *diskCache) findMissingCasBlobsInternal(ctx context.Context, blobs []*pb
 		c.verifGate("findmissing.wait")
 		select {
 		case <-ctx.Done():
-			if cancelledDueToFailFast {
+			if cancelledDueToFailFast.Load() {
 				return errMissingBlob
 			}
 			return errRequestCancelled
 		case <-waitCh: // Everything in the waitgroup has finished.
+			// A miss cancels the context and then leaves the waitgroup: both
+			// channels can be ready, and select picks one at random.
+			if cancelledDueToFailFast.Load() {
+				return errMissingBlob
+			}
 		}
 	}
 
